@@ -262,6 +262,8 @@ def K2(F, rep, R, classes=None):
         abort_atoms = [d for d in w['disjuncts'] if isinstance(d, dict) and d.get('k') == 'Member' and 'abort' in d.get('name', '').lower()]
         ok = w['lambda'] is not None and w['lock_ok'] and bool(abort_atoms) and w['variant'] == 'wait'
         why = []
+        if w['variant'] != 'wait':
+            why.append('%s: a timeout is treated like a wake-up, the code behind the wait runs although the predicate is false' % w['variant'])
         if w['lambda'] is None:
             why.append('no predicate (a bare wait can miss the wake-up or wake spuriously)')
         if not w['lock_ok']:
@@ -690,6 +692,16 @@ def K7(F, rep, R, ws):
         for fn in methods_of(F, cls):
             if fn['simple'] in waiting_methods:
                 transfer_fields |= {f for f in pred_fields if writes_fields(fn, {f})}
+        # the cv a consumer-side method notifies is the one the producers (methods that insert into storage) wait on
+        consumer_cv = producer_cv = None
+        for w in ws:
+            if w['cls'] != cls:
+                continue
+            ins = any(n.get('k') == 'Call' and n.get('fn') in ('push', 'push_back', 'emplace_back') for n in walk(w['fn']['body'], into_lambda=False))
+            if ins:
+                consumer_cv = w['cv']
+            else:
+                producer_cv = w['cv']
         for fn in methods_of(F, cls):
             if fn.get('kind') in ('ctor', 'dtor'):
                 continue
@@ -703,6 +715,16 @@ def K7(F, rep, R, ws):
             # (transferring) methods themselves write; pure configuration setters (capacity) and abort are on no side
             if len(notified) == 1 and (fn['simple'] in waiting_methods or writes_fields(fn, transfer_fields)):
                 side_of[(fn['name'])] = next(iter(notified))
+            elif not notified:
+                # releasing / appending storage is a consumer / producer action even if nobody is notified (dropOldData)
+                pops = any(n.get('k') == 'Call' and n.get('fn') in ('pop', 'pop_front', 'pop_back', 'erase') and
+                           (member_path(n.get('obj')) or (None,))[-1] in g for n in walk(fn['body'], into_lambda=False))
+                pushes = any(n.get('k') == 'Call' and n.get('fn') in ('push', 'push_back', 'emplace_back') and
+                             (member_path(n.get('obj')) or (None,))[-1] in g for n in walk(fn['body'], into_lambda=False))
+                if pops and not pushes and consumer_cv:
+                    side_of[fn['name']] = consumer_cv
+                elif pushes and not pops and producer_cv:
+                    side_of[fn['name']] = producer_cv
         for st, c in R.stages.items():
             if c != cls:
                 continue
@@ -973,11 +995,14 @@ def P(F, rep, R, FL, ws):
                 continue
             rep.count('P2')
             w = [x for x in ws if x['fn'] is fn or (x['fn']['name'] == fn['name'] and x['fn']['sig'] == fn['sig'])]
-            ok = bool(w) and all('m_bufferSize' in x['fields'] for x in w) and min(x['line'] for x in w) < min(n['l'] for n in ins)
+            ok = bool(w) and all('m_bufferSize' in x['fields'] for x in w) and min(x['line'] for x in w) < min(n['l'] for n in ins) and \
+                all(x['variant'] == 'wait' for x in w)
             rep.ob('P2', short(fn['name']) + '|' + fn['sig'], ok, rep.fn_site(fn, ins[0]['l']),
                    '%s inserts into %s %s' % (short(fn['name']), (member_path(ins[0].get('obj')) or ('?',))[-1],
                                               'after a wait whose predicate compares against m_bufferSize' if ok else
-                                              'WITHOUT a preceding back-pressure wait on the capacity - unbounded growth'), nontrivial=True)
+                                              ('after a TIMED wait: on timeout the insertion happens above the capacity - unbounded growth while the consumer stalls'
+                                               if w and any(x['variant'] != 'wait' for x in w) else
+                                               'WITHOUT a preceding back-pressure wait on the capacity - unbounded growth')), nontrivial=True)
     # P3: dropOldData() on every committing path of the functions that consume from the stream
     st = 'm_uncompressedFile'
     consumers = sorted({c['caller'] for c in R.calls if c['stage'] == st and c['method'] == 'read' and c['caller'].startswith(FILE + '::')} |
